@@ -183,6 +183,96 @@ Definition run_op (o : op) (g : dag) (w : world) (src : branch) (stop : option r
       end
   end.
 
+(* ---- every shape the API accepts ------------------------------------------------ *)
+
+(* `overwrite` as callers pass it: a bool, or a collection of "history"/"tags"
+   (brz pull/push --overwrite-tags passes {"tags"}).  _fix_overwrite_type maps
+   True to ["history", "tags"] and False to []; _basic_push/_pull hand
+   `"history" in overwrite` to _update_revisions ("tags" only concerns tag merging) *)
+Inductive overwrite := OwFalse | OwTrue | OwSet (history tags : bool).
+Definition ow_history (o : overwrite) : bool :=
+  match o with OwFalse => false | OwTrue => true | OwSet h _ => h end.
+
+(* stop_revision: None, b"null:", or a revision *)
+Inductive stop_arg := NoStop | StopNull | StopAt (r : revid).
+
+(* set_last_revision_info(0, b"null:"): _check_history_violation walks
+   iter_lefthand_ancestry(null:) = [null:], which never meets a real tip *)
+Definition set_null (tgt : branch) (append_only : bool) : result branch :=
+  if append_only
+  then match tip tgt with
+       | None => Ok (mkB None 0)
+       | Some _ => Err AppendRevisionsOnlyViolation
+       end
+  else Ok (mkB None 0).
+
+(* _update_revisions with stop_revision = b"null:": heads({null:, tip}) = {tip}
+   (or {null:} for an empty target) = {revision_b}: 'b_descends_from_a', nothing
+   to do; with overwrite find_distance_to_null(null:) = 0 and the tip is set to null: *)
+Definition update_revisions_x (g : dag) (tgt : branch) (append_only : bool) (src : branch)
+                              (stop : stop_arg) (ow : bool) : result branch :=
+  match stop with
+  | NoStop => update_revisions g tgt append_only src None ow
+  | StopAt r => update_revisions g tgt append_only src (Some r) ow
+  | StopNull => if ow then set_null tgt append_only else Ok tgt
+  end.
+Definition basic_push_x (g : dag) (tgt : branch) (append_only : bool) (src : branch)
+                        (stop : stop_arg) (ow : bool) : result branch :=
+  match stop with
+  | NoStop => basic_push g tgt append_only src None ow
+  | StopAt r => basic_push g tgt append_only src (Some r) ow
+  | StopNull => match tip tgt with
+                | None => Ok tgt                 (* old_revid == stop_revision *)
+                | Some _ => update_revisions_x g tgt append_only src StopNull ow
+                end
+  end.
+Definition step_x (o : op) (g : dag) (tgt : branch) (append_only : bool) (src : branch)
+                  (stop : stop_arg) (ow : overwrite) : result branch :=
+  match o with
+  | Pull => update_revisions_x g tgt append_only src stop (ow_history ow)
+  | Push => basic_push_x g tgt append_only src stop (ow_history ow)
+  end.
+
+(* master first, then the target, for any per-branch step *)
+Definition run_gen (f : branch -> bool -> result branch) (w : world) : option error * world :=
+  match master w with
+  | None =>
+      match f (local w) (local_ao w) with
+      | Ok l' => (None, mkW l' (local_ao w) None)
+      | Err e => (Some e, w)
+      end
+  | Some (m, mao) =>
+      match f m mao with
+      | Err e => (Some e, w)
+      | Ok m' =>
+          match f (local w) (local_ao w) with
+          | Ok l' => (None, mkW l' (local_ao w) (Some (m', mao)))
+          | Err e => (Some e, mkW (local w) (local_ao w) (Some (m', mao)))
+          end
+      end
+  end.
+Definition run_op_x (o : op) (g : dag) (w : world) (src : branch) (stop : stop_arg)
+                    (ow : overwrite) : option error * world :=
+  run_gen (fun b ao => step_x o g b ao src stop ow) w.
+
+(* Branch.set_last_revision_info(revno, revid) and Branch.generate_revision_history(revid)
+   called directly; new = None is b"null:" *)
+Definition direct_set (g : dag) (tgt : branch) (append_only : bool) (n : nat)
+                      (new : option revid) : result branch :=
+  match new with
+  | None => set_null tgt append_only
+  | Some s => set_last_revision_info g tgt append_only n s
+  end.
+Definition generate_history (g : dag) (tgt : branch) (append_only : bool)
+                            (new : option revid) : result branch :=
+  match new with
+  | None => set_null tgt append_only
+  | Some s => match distance_known g (known_of tgt) s with
+              | None => Err GhostRevisionsHaveNoRevno
+              | Some n => set_last_revision_info g tgt append_only n s
+              end
+  end.
+
 (* the recorded revno is the length of the tip's left-hand history *)
 Definition consistent (g : dag) (b : branch) : Prop := distance_opt g (tip b) = Some (revno b).
 Definition consistentb (g : dag) (b : branch) : bool :=
@@ -237,3 +327,18 @@ Definition run_graph (g : dag) (keys : list revid) (r : revid) : obs :=
       olist onat (sort_revs (ancestors g [r]));
       olist onat (lefthand g r);
       oopt onat (distance_to_null g r)].
+
+(* the general entry points used by the correspondence run *)
+Definition oresult_branch (r : result branch) : obs :=
+  match r with
+  | Ok b => OL [OT "ok"; obranch b]
+  | Err e => OL [OE (error_name e)]
+  end.
+Definition run_case_x (o : op) (g : dag) (w : world) (src : branch) (stop : stop_arg)
+                      (ow : overwrite) : obs :=
+  let '(e, w') := run_op_x o g w src stop ow in
+  OL [ostatus e; obranch (local w'); oopt (fun mb => obranch (fst mb)) (master w')].
+Definition run_setinfo (g : dag) (tgt : branch) (ao : bool) (n : nat) (new : option revid) : obs :=
+  oresult_branch (direct_set g tgt ao n new).
+Definition run_genhist (g : dag) (tgt : branch) (ao : bool) (new : option revid) : obs :=
+  oresult_branch (generate_history g tgt ao new).
